@@ -4,6 +4,7 @@ package main
 
 import (
 	"encoding/json"
+	"fmt"
 	"math"
 
 	"github.com/twpayne/go-geom"
@@ -100,6 +101,8 @@ func boundsHandler(raw json.RawMessage) map[string]any {
 	var c struct {
 		Fam    string
 		L0     string
+		M1, M2 bGeom
+		First  int
 		Gs     []bGeom
 		T      bNode
 		N      int
@@ -119,6 +122,52 @@ func boundsHandler(raw json.RawMessage) map[string]any {
 			own = append(own, boundsProj(func() *geom.Bounds { return gg.Bounds() }))
 		}
 		out["steps"], out["own"] = steps, own
+	case "clone":
+		b := geom.NewBounds(layoutOf(c.L0))
+		for i, g := range c.Gs {
+			b.Extend(leafGeom(g.L, g.Cs, i))
+		}
+		cl := b.Clone()
+		proj := func(x *geom.Bounds) map[string]any { return boundsProj(func() *geom.Bounds { return x }) }
+		out["orig0"], out["clone0"] = proj(b), proj(cl)
+		x, y := b, cl
+		if c.First == 2 {
+			x, y = cl, b
+		}
+		x.Extend(leafGeom(c.M1.L, c.M1.Cs, 1))
+		out["orig1"], out["clone1"] = proj(b), proj(cl)
+		y.Extend(leafGeom(c.M2.L, c.M2.Cs, 2))
+		out["orig2"], out["clone2"] = proj(b), proj(cl)
+		// Set on a fresh clone must not show through its original (bitwise snapshot of min / max)
+		setok := true
+		if b.Layout() != geom.NoLayout {
+			before := fmt.Sprint(proj(b))
+			c2 := b.Clone()
+			args := make([]float64, 2*b.Layout().Stride())
+			for i := range args {
+				args[i] = float64(50 + i)
+			}
+			c2.Set(args...)
+			c2.SetCoords(geom.Coord(args[:b.Layout().Stride()]), geom.Coord(args[b.Layout().Stride():]))
+			setok = before == fmt.Sprint(proj(b))
+		}
+		out["setok"] = setok
+		// Coord.Clone: equal, and writes to either are not visible through the other
+		co := geom.Coord{1, 2, 3, 4, 5}[:2+c.First]
+		cc := co.Clone()
+		ok := len(cc) == len(co)
+		for i := range co {
+			ok = ok && math.Float64bits(cc[i]) == math.Float64bits(co[i])
+		}
+		cc[0] = 77
+		ok = ok && co[0] == 1
+		co[1] = 88
+		ok = ok && cc[1] == 2
+		cc = append(cc, 9)
+		ok = ok && len(co) == 2+c.First
+		var nilc geom.Coord
+		ok = ok && len(nilc.Clone()) == 0
+		out["coordok"] = ok
 	case "gc":
 		g := buildNode(c.T, 0)
 		out["b"] = boundsProj(func() *geom.Bounds { return g.Bounds() })
